@@ -372,13 +372,13 @@ class GeopackageCache(TileCacheBase):
             coords.append(x)
             coords.append(y)
             coords.append(level)
-            tile_dict[(x, y)] = tile
+            tile_dict[(x, y, level)] = tile
 
         if not tile_dict:
             # all tiles loaded or coords are None
             return True
 
-        stmt_base = "SELECT tile_column, tile_row, tile_data FROM [{0}] WHERE ".format(self.table_name)
+        stmt_base = "SELECT tile_column, tile_row, zoom_level, tile_data FROM [{0}] WHERE ".format(self.table_name)
 
         loaded_tiles = 0
 
@@ -394,8 +394,8 @@ class GeopackageCache(TileCacheBase):
 
             for row in cursor:
                 loaded_tiles += 1
-                tile = tile_dict[(row[0], row[1])]
-                data = row[2]
+                tile = tile_dict[(row[0], row[1], row[2])]
+                data = row[3]
                 tile.size = len(data)
                 tile.source = ImageSource(BytesIO(data))
             cursor.close()
